@@ -12,8 +12,29 @@ import (
 )
 
 // fn resolves an anchor function; an unresolved anchor is UNDECIDED, never a silent pass.
+// otherReceiver: the same method name with the other receiver kind ((*T).m <-> (T).m).
+func otherReceiver(name string) string {
+	if strings.HasPrefix(name, "(*") {
+		return "(" + name[2:]
+	}
+	if strings.HasPrefix(name, "(") {
+		return "(*" + name[1:]
+	}
+	return ""
+}
+
 func (r *Run) fn(name string) *ssa.Function {
 	f := r.P.Fn(name)
+	if f == nil || len(f.Blocks) == 0 {
+		// a method whose receiver changed between value and pointer is still that method: analyse it (a lost write
+		// on the new by-value receiver is what RG1 reports)
+		if o := otherReceiver(name); o != "" {
+			if g := r.P.Fn(o); g != nil && len(g.Blocks) > 0 && g.Synthetic == "" {
+				r.Anchors[g] = true
+				return g
+			}
+		}
+	}
 	if f == nil || len(f.Blocks) == 0 {
 		r.Undecided("anchor", name, "-", "anchor function "+name+" does not resolve in the current tree (renamed or removed): the rule tables must be re-confirmed")
 		return nil
